@@ -163,6 +163,19 @@ def cases(tier, seed, args):
             sc.pop('wca_pos', None)
             sc['wca'], sc['wca_type'] = (-1,), 'tuple'
             out.append(dict(t='model', **sc))
+        # every weight-tying option of every model once, deterministically (one leading axis, weights that differ between
+        # observations and bins)
+        for kind in ml.KINDS:
+            integ = kind in ml.INTEGRATION
+            for wi, wca in enumerate(INT_WCA if integ else STD_WCA):
+                sc = scenario(rng, kind, tier)
+                sc.update(regime=['regular', 'separable'][wi % 2], init='soft', dtype='float64', K=2 + wi % 2, N=int(rng.integers(8, 14)), L=[2 + wi % 2],
+                          iterations=1 + wi % 2, sam=False, aligner=False, saliency=bool(wi % 2), wca=wca,
+                          wca_type='int' if isinstance(wca, int) else ('list' if isinstance(wca, list) else 'tuple'))
+                sc.pop('wca_pos', None)
+                if integ:
+                    sc['opts'] = dict(sc['opts'], inline_permutation_alignment=False)
+                out.append(dict(t='model', **sc))
         # more than 2^14 observations in one call (posterior columns are recorded at block boundaries and at the tail)
         for i in range(2 if q else 6):
             sc = scenario(rng, ['gmm', 'vmfmm', 'cacgmm'][i % 3], tier)
